@@ -664,9 +664,17 @@ package mcp
 
 // Read: when a batch arrives, exactly the calls in it (requests carrying an id) are tracked for the batch reply;
 // notifications never are (they get no response, so tracking one would withhold the reply for ever).
-//@ func (*ioConn).Read [C02, C03]
+//@ func (*ioConn).Read [C02, C03, C01]
 //@   modifies *
 //@   requires t != nil
+//@   track readBatch as split
+// (C01: a response that arrived in a batch reaches its call) a freshly read frame is handed on completely - the
+// first message is returned, every other message of the frame is queued behind it, in order, whatever the batch
+// is made of (responses only, notifications only, calls).
+//@   ensures @the-rest-of-a-single-message-frame-is-queued result.1 == nil && calls(split) == 1 && !callResult(split, 1, 1) ==> len(callResult(split, 1, 0)) >= 1 && len(t.queue) == len(callResult(split, 1, 0)) - 1 && backing(t.queue) == backing(callResult(split, 1, 0)) && off(t.queue) == off(callResult(split, 1, 0)) + 1
+// (for a batch the same fact is the entry condition of the loop that tracks its calls: the queue is filled before
+// anything is decided about the batch's calls)
+//@   loop 1: invariant @the-rest-of-a-batch-is-queued calls(split) == 1 && local(msgs) == callResult(split, 1, 0) && len(t.queue) == len(local(msgs)) - 1 && backing(t.queue) == backing(local(msgs)) && off(t.queue) == off(local(msgs)) + 1
 //@   ensures @queued-batch-messages-come-out-in-order old(len(t.queue)) > 0 && result.1 == nil ==> result.0 == old(t.queue[0]) && len(t.queue) == old(len(t.queue)) - 1 && backing(t.queue) == old(backing(t.queue)) && off(t.queue) == old(off(t.queue)) + 1
 //@   assert at call addBatch: @only-calls-are-tracked forall id jsonrpc2.ID :: {inDom($1.unresolved, id)} id in $1.unresolved ==> id.value != nil
 //@   loop 1: invariant @only-calls-are-tracked local(respBatch) != nil ==> local(respBatch).unresolved != nil
